@@ -1282,7 +1282,7 @@ seq_t dtw_warping_paths_ndim(seq_t *wps,
     // D. Rows: MAX(overlap_left_ri, overlap_right_ri) < ri <= l1
     // [x 0 0 0 0]
     // [x x 0 0 0]
-    min_ci = MAX(0, p.ri3 + 1 - p.window - p.ldiff );
+    min_ci = MAX(0, p.ri3 + 1 - p.window - p.ldiffr );
     wpsi_start = 2;
     if (p.ri2 == p.ri3) {
         // C is skipped
@@ -1666,7 +1666,7 @@ seq_t dtw_warping_paths_ndim_euclidean(seq_t *wps,
     // D. Rows: MAX(overlap_left_ri, overlap_right_ri) < ri <= l1
     // [x 0 0 0 0]
     // [x x 0 0 0]
-    min_ci = MAX(0, p.ri3 + 1 - p.window - p.ldiff );
+    min_ci = MAX(0, p.ri3 + 1 - p.window - p.ldiffr );
     wpsi_start = 2;
     if (p.ri2 == p.ri3) {
         // C is skipped
@@ -2069,7 +2069,7 @@ seq_t dtw_warping_paths_affinity_ndim(seq_t *wps,
     // D. Rows: MAX(overlap_left_ri, overlap_right_ri) < ri <= l1
     // [x 0 0 0 0]
     // [x x 0 0 0]
-    min_ci = MAX(0, p.ri3 + 1 - p.window - p.ldiff );
+    min_ci = MAX(0, p.ri3 + 1 - p.window - p.ldiffr );
     wpsi_start = 2;
     if (p.ri2 == p.ri3) {
         // C is skipped
@@ -2405,7 +2405,7 @@ seq_t dtw_warping_paths_affinity_ndim_euclidean(seq_t *wps,
     // D. Rows: MAX(overlap_left_ri, overlap_right_ri) < ri <= l1
     // [x 0 0 0 0]
     // [x x 0 0 0]
-    min_ci = MAX(0, p.ri3 + 1 - p.window - p.ldiff );
+    min_ci = MAX(0, p.ri3 + 1 - p.window - p.ldiffr );
     wpsi_start = 2;
     if (p.ri2 == p.ri3) {
         // C is skipped
@@ -2872,7 +2872,7 @@ idx_t dtw_wps_loc(DTWWps* p, idx_t r, idx_t c, idx_t l1, idx_t l2) {
     }
 
     // D.
-    min_ci = MAX(0, p->ri3 + 1 - p->window - p->ldiff);
+    min_ci = MAX(0, p->ri3 + 1 - p->window - p->ldiffr);
     max_ci = l2 + 1;
     wpsi_start = 2;
     if (p->ri2 == p->ri3) {
@@ -2956,7 +2956,7 @@ idx_t dtw_wps_loc_columns(DTWWps* p, idx_t r, idx_t *cb, idx_t *ce, idx_t l1, id
     }
 
     // D.
-    min_ci = MAX(0, p->ri3 + 1 - p->window - p->ldiff);
+    min_ci = MAX(0, p->ri3 + 1 - p->window - p->ldiffr);
     max_ci = l2 + 1;
     wpsi_start = 2;
     if (p->ri2 == p->ri3) {
@@ -3062,7 +3062,7 @@ idx_t dtw_wps_max(DTWWps* p, seq_t *wps, idx_t *r, idx_t *c, idx_t l1, idx_t l2)
     }
 
     // D.
-    min_ci = MAX(0, p->ri3 + 1 - p->window - p->ldiff);
+    min_ci = MAX(0, p->ri3 + 1 - p->window - p->ldiffr);
     max_ci = l2 + 1;
     wpsi_start = 2;
     if (p->ri2 == p->ri3) {
@@ -3123,7 +3123,7 @@ idx_t dtw_best_path(seq_t *wps, idx_t *i1, idx_t *i2, idx_t l1, idx_t l2,
     idx_t ri_width = p.width * rip;
 
     // D. ri3 <= ri < l1
-    min_ci = p.ri3 + 1 - p.window - p.ldiff;
+    min_ci = p.ri3 + 1 - p.window - p.ldiffr;
     wpsi_start = 2;
     if (p.ri2 == p.ri3) {
         wpsi_start = min_ci + 1;
@@ -3361,7 +3361,7 @@ idx_t dtw_best_path_isclose(seq_t *wps, idx_t *i1, idx_t *i2, idx_t l1, idx_t l2
     idx_t ri_width = p.width * rip;
 
     // D. ri3 <= ri < l1
-    min_ci = p.ri3 + 1 - p.window - p.ldiff;
+    min_ci = p.ri3 + 1 - p.window - p.ldiffr;
     wpsi_start = 2;
     if (p.ri2 == p.ri3) {
         wpsi_start = min_ci + 1;
@@ -3622,7 +3622,7 @@ idx_t dtw_best_path_prob(seq_t *wps, idx_t *i1, idx_t *i2, idx_t l1, idx_t l2, s
     // printf("avg = %f\n", avg);
     
     // D. ri3 <= ri < l1
-    min_ci = p.ri3 + 1 - p.window - p.ldiff;
+    min_ci = p.ri3 + 1 - p.window - p.ldiffr;
     wpsi_start = 2;
     if (p.ri2 == p.ri3) {
         // C is skipped
@@ -4916,7 +4916,7 @@ void dtw_print_wps(seq_t * wps, idx_t l1, idx_t l2, DTWSettings* settings) {
     }
     
     // D. Rows: MAX(overlap_left_ri, overlap_right_ri) < ri <= l1
-    min_ci = p.ri3 + 1 - p.window - p.ldiff;
+    min_ci = p.ri3 + 1 - p.window - p.ldiffr;
     wpsi_start = 2;
     if (p.ri2 == p.ri3) {
         // C is skipped
